@@ -148,6 +148,11 @@ static void ChkDelayed(void) {
 /* Adressparsing */
 
 static char* LiteralName(PLiteral Lit, char* Result, int ResultSize) {
+    /* the result is a symbol name, not a number to display */
+
+    char SaveSplitByteCharacter = SplitByteCharacter;
+
+    SplitByteCharacter = '\0';
     as_snprintf(Result, ResultSize, "LITERAL_");
     if (Lit->IsForward) {
         as_snprcatf(Result, ResultSize, "F_%08" PRIx64, (LargeWord)Lit->FCount);
@@ -157,6 +162,7 @@ static char* LiteralName(PLiteral Lit, char* Result, int ResultSize) {
         as_snprcatf(Result, ResultSize, "W_%04x", (unsigned)Lit->Value);
     }
     as_snprcatf(Result, ResultSize, "_%x", (unsigned)Lit->PassNo);
+    SplitByteCharacter = SaveSplitByteCharacter;
     return Result;
 }
 
